@@ -146,9 +146,12 @@ class Builder:
     def F(self, m):
         if m is None or self.rng.random() >= self.mode_form_p:
             return m
-        form = str(self.rng.choice(["np.int64", "np.int32", "np.intp", "float"]))
+        form = str(self.rng.choice(["np.int64", "np.int32", "np.intp", "float", "np.uint8", "np.int8", "np.uint16"]))
+        if not 0 <= m <= 127:
+            form = "np.int64" if form in ("np.uint8", "np.int8", "np.uint16") else form
         self._forms.append(form)
-        return {"np.int64": np.int64, "np.int32": np.int32, "np.intp": np.intp, "float": float}[form](m)
+        return {"np.int64": np.int64, "np.int32": np.int32, "np.intp": np.intp, "float": float,
+                "np.uint8": np.uint8, "np.int8": np.int8, "np.uint16": np.uint16}[form](m)
 
     def _note_forms(self, log):
         if self._forms:
